@@ -276,6 +276,14 @@ def check(run):
             inputs.append(("hostile-string", d))
             if len(fb_tools) < (4000 if quick else 60000):
                 fb_tools.append(d)
+    # ONE very long string (12 MiB: longer than the default 8 MiB stack) in the place of each of the first strings of a file -
+    # an address, a name, RDATA, a payload, a text member: nothing may size a stack object by it (reader, renderers, tools)
+    HUGE = b"\x07" * (12 * 1024 * 1024 + 1)
+    for v in rich[:1]:
+        for k, d in enumerate(string_fields(v, [HUGE])):
+            if k >= (10 if quick else 40):
+                break
+            inputs.append(("huge-string", d)); fb_tools.append(d)
     import copy
     while len(inputs) < n_mut:
         k = rng.random()
